@@ -138,7 +138,8 @@ func machine(input OmegaInput) (output OmegaOutput) {
 		}
 	}
 
-	var u Memory
+	// u: a fresh machine has an empty (not a nil) page map, so that pages/poke can populate it
+	u := Memory{Pages: make(map[uint32]*Page)}
 	_, exitReason := DeBlobProgramCode(p)
 	// otherwise if deblob(p) = PANIC
 	if exitReason == ExitPanic {
@@ -387,9 +388,15 @@ func invoke(input OmegaInput) (output OmegaOutput) {
 			pvmLogger.Errorf("host-call function \"invoke\" decode register:%d error : %v", i-1, err)
 		}
 	}
-	// psi preprocess
-	tmpProgram := Program{
-		InstructionData: input.Addition.IntegratedPVMMap[n].ProgramCode,
+	// psi preprocess: the machine holds the program blob p; what runs is deblob(p) = (c, k, j)
+	// (machine() only admits blobs that deblob)
+	tmpProgram, exitReason := DeBlobProgramCode(input.Addition.IntegratedPVMMap[n].ProgramCode)
+	if exitReason != ExitContinue {
+		input.VM.Registers[7] = INNERPANIC
+		return OmegaOutput{
+			ExitReason: ExitContinue,
+			Addition:   input.Addition,
+		}
 	}
 	tempMemory := input.Addition.IntegratedPVMMap[n].Memory
 	// wrap m[n]_p (program),  w (registers),  m[n]_u (memory),   g (gas) into NewHost
@@ -416,7 +423,8 @@ func invoke(input OmegaInput) (output OmegaOutput) {
 	tmp := input.Addition.IntegratedPVMMap[n]
 	tmp.Memory = *tempHost.Interpreter.Memory
 	if c.GetReasonType() == HOST_CALL {
-		tmp.PC = pcPrime + 1 + ProgramCounter(skip(int(pcPrime), input.Addition.Program.Bitmasks))
+		// resume after the ecalli of the INNER program (its own bitmask, not the outer program's)
+		tmp.PC = pcPrime + 1 + ProgramCounter(skip(int(pcPrime), tmpProgram.Bitmasks))
 	} else {
 		tmp.PC = pcPrime
 	}
